@@ -53,7 +53,14 @@ Inductive prim :=
 | PReversed   (* reversed(l) where it is consumed at once (the argument of join): the reversed list *)
 | PRange2     (* range(a, b), wherever it is iterated: the list a .. b-1 *)
 | PEnumerate  (* enumerate(a), wherever it is iterated: the list of the pairs [i; a[i]] *)
-| PSum.       (* sum(a) of a list of numbers: 0 + a[0] + a[1] + ... from the left *)
+| PSum        (* sum(a) of a list of numbers: 0 + a[0] + a[1] + ... from the left *)
+| PSeqAdd     (* a + b where the operands may be sequences: numbers add, two lists / two strings concatenate *)
+| PSeqMul     (* a * b where an operand may be a sequence: numbers multiply; a string / a list and an integer n (in
+                 either order) is n copies of it, none when n <= 0 *)
+| PSeqLen     (* len(a), a a list or a string (the number of its characters) *)
+| PSortedByAttr. (* l.sort(key=lambda v: v.a) / sorted(l, key=...) [l; 'a'], l a list of objects whose attribute a is a
+                    number: the STABLE sort by that number (list.sort is stable; on numbers the stable sorted
+                    permutation is unique) *)
 Definition as_int (q : Q) : option Z :=
   let r := Qred q in match Qden r with xH => Some (Qnum r) | _ => None end.
 Definition vint (z : Z) : val := VNum (inject_Z z).
@@ -74,6 +81,31 @@ Fixpoint sum_vals (acc : Q) (l : list val) : val :=
   | VErr m :: _ => VErr m
   | _ :: _ => VErr "TypeError"
   end.
+Fixpoint str_repeat (n : nat) (s : string) : string :=
+  match n with Datatypes.O => EmptyString | S n' => String.append s (str_repeat n' s) end.
+Fixpoint list_repeat (n : nat) (l : list val) : list val :=
+  match n with Datatypes.O => [] | S n' => List.app l (list_repeat n' l) end.
+(* PSortedByAttr: the keys (every element must be an object with a numeric attribute a; anything else is the error
+   value TypeError: Python raises AttributeError / TypeError there, or orders non-numeric keys, which is outside this
+   embedding), then a stable insertion sort on the keys *)
+Fixpoint obj_attr (a : string) (f : list (string * val)) : option val :=
+  match f with [] => None | (k, v) :: r => if String.eqb a k then Some v else obj_attr a r end.
+Fixpoint attr_keys (a : string) (l : list val) : option (list (Q * val)) :=
+  match l with
+  | [] => Some []
+  | VObj f :: r => match obj_attr a f, attr_keys a r with
+                   | Some (VNum k), Some ks => Some ((k, VObj f) :: ks)
+                   | _, _ => None
+                   end
+  | _ :: _ => None
+  end.
+Fixpoint key_insert (k : Q) (v : val) (l : list (Q * val)) : list (Q * val) :=
+  match l with
+  | [] => [(k, v)]
+  | (k', v') :: r => if Qle_bool k k' then (k, v) :: l else (k', v') :: key_insert k v r
+  end.
+Fixpoint key_sort (l : list (Q * val)) : list (Q * val) :=
+  match l with [] => [] | (k, v) :: r => key_insert k v (key_sort r) end.
 Definition prim_apply (p : prim) (args : list val) : val :=
   match p, args with
   | PAbs, [VNum q] => VNum (if Qle_bool 0 q then q else Qopp q)
@@ -110,6 +142,22 @@ Definition prim_apply (p : prim) (args : list val) : val :=
       end
   | PEnumerate, [VList l] => VList (enum_from 0 l)
   | PSum, [VList l] => sum_vals 0 l
+  | PSeqAdd, [VNum a; VNum b] => VNum (a + b)%Q
+  | PSeqAdd, [VList a; VList b] => VList (List.app a b)
+  | PSeqAdd, [VStr a; VStr b] => VStr (String.append a b)
+  | PSeqMul, [VNum a; VNum b] => VNum (a * b)%Q
+  | PSeqMul, [VStr s; VNum q] =>
+      match as_int q with Some n => VStr (str_repeat (Z.to_nat n) s) | None => VErr "TypeError" end
+  | PSeqMul, [VNum q; VStr s] =>
+      match as_int q with Some n => VStr (str_repeat (Z.to_nat n) s) | None => VErr "TypeError" end
+  | PSeqMul, [VList l; VNum q] =>
+      match as_int q with Some n => VList (list_repeat (Z.to_nat n) l) | None => VErr "TypeError" end
+  | PSeqMul, [VNum q; VList l] =>
+      match as_int q with Some n => VList (list_repeat (Z.to_nat n) l) | None => VErr "TypeError" end
+  | PSeqLen, [VList l] => vint (Z.of_nat (List.length l))
+  | PSeqLen, [VStr s] => vint (Z.of_nat (String.length s))
+  | PSortedByAttr, [VList l; VStr a] =>
+      match attr_keys a l with Some ks => VList (map snd (key_sort ks)) | None => VErr "TypeError" end
   | _, _ => VErr "TypeError"
   end.
 
